@@ -27,9 +27,14 @@ def _builtin_exc_names():
     return BUILTIN_EXC
 
 
+_UNS = []
+
+
 def U(interp):
-    from .absint import Unsupported
-    return Unsupported
+    if not _UNS:
+        from .absint import Unsupported
+        _UNS.append(Unsupported)
+    return _UNS[0]
 
 
 def install(cls):
@@ -509,9 +514,7 @@ def x_in(self, st, a, b, node):
                 return True
             return Top("in:dict", o.open)
         else:
-            hook = None
-            if isinstance(o.cls, ClassInfo):
-                hook = self.stubs.get(o.cls.name + ".__contains__")
+            hook = self.stubs.get((o.clsname() or "") + ".__contains__")
             if hook is not None:
                 return hook(self, st, b, a, node)
             return Top("in:obj", o.open)
@@ -707,6 +710,8 @@ def get_attr(self, st, base, attr, node, default=KeyError):
                 if m.kind == "classmethod":
                     return [(st, "val", BoundMeth(base, m))]
                 return [(st, "val", FuncVal(m))]
+            if attr == "__init__":
+                return [(st, "val", Builtin("noop"))]
             lc = ci.lookup_const(attr)
             if lc is not None:
                 try:
@@ -722,6 +727,9 @@ def get_attr(self, st, base, attr, node, default=KeyError):
         return [(st, "val", Top("%s.%s" % (base.name(), attr)))]
     if isinstance(base, ModuleVal):
         if isinstance(base.mod, Module):
+            ov = getattr(self, "module_attrs", {}).get((base.mod.name, attr))
+            if ov is not None:
+                return [(st, "val", ov)]
             r = self.ix.resolve_name(base.mod, attr)
             if r is None:
                 raise U_("module attribute %s.%s" % (base.mod.name, attr))
@@ -752,7 +760,7 @@ def get_attr(self, st, base, attr, node, default=KeyError):
         if attr == "__init__":
             return [(st, "val", Builtin("noop"))]
         return [(st, "val", BoundMeth(base.self_val, None, "super." + attr))]
-    if isinstance(base, (str, tuple, frozenset, int, float, bytes)):
+    if isinstance(base, (str, tuple, frozenset, int, float, bytes)) or hasattr(base, "abs_call"):
         return [(st, "val", BoundMeth(base, None, attr))]
     if isinstance(base, BoundMeth) or isinstance(base, FuncVal):
         if attr in ("__name__",):
@@ -793,6 +801,8 @@ def e_Subscript(self, st, node):
 
 
 def x_slice(self, st, base, node):
+    if hasattr(base, "abs_item"):
+        return base.abs_item(self, st, "slice", node)
     sl = node.slice
     def cv(e):
         if e is None:
@@ -840,7 +850,20 @@ def get_item(self, st, base, idx, node):
             n = self.abs_len(st, base)
             if n == 0:
                 return self.raise_exc(st, "IndexError", node, "index", "index into empty list")
+            if isinstance(n, SymLen) and n.added == 0 and o.base == "split":
+                # possibly empty (e.g. str.split() of unknown text): both outcomes
+                s2 = st.fork()
+                s2.note("%s: the list may be empty here" % self.loc(node))
+                empty = self.raise_exc(s2, "IndexError", node, "index", "index into a possibly empty list (%s)" % (o.label or "list"))
+                w = st.wobj(base)
+                w.count = 1
+                elem = w.fields.get("@elem")
+                if callable(elem) and not isinstance(elem, type):
+                    elem = elem(st)
+                return empty + [(st, "val", elem if elem is not None else Top("list[]", o.open))]
             elem = o.fields.get("@elem")
+            if callable(elem) and not isinstance(elem, type):
+                elem = elem(st)
             return [(st, "val", elem if elem is not None else Top("list[]", o.open))]
         if isinstance(o.cls, ClassInfo):
             m = o.cls.lookup("__getitem__")
@@ -858,6 +881,8 @@ def get_item(self, st, base, idx, node):
         return [(st, "val", Top("tuple[?]", False))]
     if isinstance(base, Top):
         return [(st, "val", Top(base.tag + "[]", base.input))]
+    if hasattr(base, "abs_item"):
+        return [(st, "val", base.abs_item(self, st, idx, node))]
     if isinstance(base, ModuleVal) or isinstance(base, ClassVal):
         return [(st, "val", Top("ext[]", False))]
     raise U(self)("subscript on %r at %s" % (base, self.loc(node)))
